@@ -42,6 +42,7 @@ pub fn generate(rng: &mut Rng, tier: Tier, stats: &mut GenStats) -> Scenario {
             victims: vec![],
             layers: vec![],
             taps: g.rng.chance(1, 2),
+            erased: false,
         });
     }
     // Walks must not share hidden state: the second walker often repeats the first one's glob from
